@@ -33,6 +33,9 @@ CLAIMS = {
  "C17": ("Structural clauses only: ini_buf_gen's writes are guarded by offset + pending <= buf_size (the clause 'generation into a smaller buffer fails without writing past it'); ini_buf_calc_size adds per line what ini_buf_gen writes per line under the same skip condition; the case-sensitive and case-insensitive lookup pairs use the right comparator and are otherwise identical; realloc_items' success contract (*allocated > count); every slot store / slot-opening memmove in ini.c is dominated by a successful reservation for the current count and a failing reservation leaves; no free of a line already stored in the array; interior pointers re-derived after a record is reallocated. Ordered-map behaviour over operation histories and text round-trip equality are NOT decided.",
          "Trusts clang 14 front end/CFG; C semantics of realloc/reallocarray/free; ini->lines[] capacity is maintained only by realloc_items.",
          "static analysis: guard evaluation over a finite grid covering every ordering of the compared quantities (partial evaluation), dominance and kill-path reachability on the CFG, sibling comparison, per-iteration effect counting"),
+ "C20": ("Structural clauses only: http_req_sec_chk's rule section over all 54 combinations of Host/Content-Length/Transfer-Encoding counts and method accepts exactly the blocks without a duplicate/conflicting framing pattern, each refusal with its own code; the counted names are the RFC names with matching lengths; the byte scan classifies all 256 byte values (with each relevant next byte and at the end of the block) as the property demands; http_hdr_val_get_ex treats CRLF+SP/HTAB as a continuation and anything else as the field end (all 256 values), reports a field only when the case-insensitive comparator matched; http_hdr_val_get_count's loop structure; http_get_method_fast classifies every table spelling, an unknown and a prefix correctly. That every returned span equals the RFC 7230/3986 delimitation, path trimming and the query helpers are NOT decided.",
+         "Trusts clang 14 front end/CFG; memcmp/mem_cmpin/mem_find* as documented (bodies under C12/C13).",
+         "static analysis: partial evaluation of the checker's CFG over finite argument classes and a two/four byte abstract window (exhaustive over byte values), guard dominance, literal/length agreement, table agreement"),
  "C10": ("Structural clauses only: the shared countdown field is accessed under its lock after publication (lock-set dataflow), pre-publication accesses cannot follow a send; no dereference of the shared record after the countdown's unlock (the clause 'does not touch the caller's memory afterwards'); the heap record of the completion form is freed/handed over on every path; per-target sent/failed accounting and returned failure count; single completion site guarded by zero that frees after the user callback; one-by-one token order. Once-per-thread / completion-after-all under interleavings is NOT decided.",
          "Trusts clang 14 CFG, pthread mutex semantics, tpt_msg_send returning 0 = ownership transferred.",
          "static analysis: lock-set dataflow, reachability after release point, path enumeration for ownership and accounting"),
